@@ -60,7 +60,7 @@ def gpg_cases(tier, rng):
     for n in range(0, L + 1):
         out.extend(itertools.product(keys, repeat=n))
     for _ in range(500 if tier == 'quick' else 20000):
-        out.append(tuple(rng.choice('GVUfMunXRKSj') for _ in range(rng.randint(3, 6))))
+        out.append(tuple(rng.choice('GVUFfMunXRKSj') for _ in range(rng.randint(3, 6))))
     return out
 
 
@@ -97,7 +97,7 @@ def c05(rng, tier, repo):
         env = O.SystemGPGEnvironment()
         cases = gpg_cases(tier, rng)
         if tier == 'quick':
-            cases = cases[::7] + [tuple('GVU'), tuple('GVf'), tuple('GVM'), tuple('GVu'), tuple('GVn'), tuple('GVF'),
+            cases = cases[::7] + [tuple('GVU'), tuple('GVf'), tuple('GVF'), tuple('GVM'), tuple('GVu'), tuple('GVn'), tuple('GVF'),
                                   tuple('GVUX'), tuple('XGVU'), tuple('GVUR'), tuple('GU'), tuple('VU'), tuple('GV')]
         for seq in cases:
             for ex in (0, 1, 2):
@@ -134,7 +134,7 @@ def c05(rng, tier, repo):
                             break
                     if want is None:
                         good, valid = 'G' in seq, 'V' in seq
-                        trusted = any(k in 'UfM' for k in seq)
+                        trusted = any(k in 'UFM' for k in seq)      # TRUST_FULLY is gpg's keyword; 'TRUST_FULL' (f) is not a gpg status
                         want = 'unknown' if not (good and valid) else ('accepted' if trusted else 'untrusted')
                 n += 1
                 distinct += 1
